@@ -62,6 +62,16 @@ theorem shared_formula_translation_total (s : List Char) (d : Int × Int) :
 theorem ods_text_no_panic (evs : List XmlText.Ev) (x : String) : XmlText.odsCellText evs ≠ .panic x :=
   XmlText.ods_reader_no_panic evs x
 
+/-- the whole ods text loop is TOTAL: `Ok` or `Err` on every event list (an unterminated annotation is
+    `Err(Eof)` since /repo d6b5c9c, where it used to spin) -/
+theorem ods_text_total (evs : List XmlText.Ev) :
+    (∃ r, XmlText.odsCellText evs = .ok r) ∨ (∃ e, XmlText.odsCellText evs = .err e) :=
+  XmlText.ods_reader_total evs
+
+/-- XML entity / character-reference unescaping on any text: `Ok` or `Err` -/
+theorem xml_unescape_total (s : List Char) :
+    (∃ r, XmlEscape.unescape s = .ok r) ∨ (∃ e, XmlEscape.unescape s = .err e) := XmlEscape.unescape_total s
+
 /-! ## number formats -/
 
 /-- `detect_custom_number_format` is total: it classifies every text (after the bracket counter became a
@@ -184,6 +194,16 @@ theorem xls_merge_cells_total (r : Geometry.Bytes) :
     (∃ ds, Geometry.parseMergeCells r = .ok ds) ∨ Geometry.parseMergeCells r = .err "Len:merge cells" :=
   Geometry.parse_merge_cells_no_panic r
 
+/-- xlsx tables: any `ref` text, any header / totals counts, any `insertRow`, any sheet range —
+    `read_table_metadata`'s geometry is an `Err` or a rectangle, and `table_by_name` on it returns `Ok`
+    whenever the rectangle's cell count fits `u32` (beyond that: the dense allocation of D37) -/
+theorem xlsx_table_no_panic {α : Type} [Inhabited α] (m : Geometry.Mode) (hm : m.satArith = true)
+    (hd : m.satDim = true) (ref : Geometry.Bytes) (h t : Nat) (ins : Bool) (rng : Range.Rng α) :
+    (∃ e, Geometry.tableDims m ref h t ins = .err e) ∨
+    (∃ d, Geometry.tableDims m ref h t ins = .ok d ∧
+      ((d.er - d.sr + 1) * (d.ec - d.sc + 1) < Range.U32 → ∃ tbl, Geometry.tableData rng d = .ok tbl)) :=
+  Geometry.table_by_name_no_panic m hm hd ref h t ins rng
+
 /-! ## xlsb -/
 
 /-- xlsb record framing, the sheet-part cell loop and the shared-string reader on ANY bytes: no panic, budgets
@@ -208,6 +228,10 @@ theorem xlsb_shared_strings_no_panic (bs : Xlsb.Bytes) (m : String) : Xlsb.readS
     unchecked reads, the copy-offset underflow and the signature assertion) -/
 theorem vba_decompress_total (s : Ovba.Bytes) :
     (∃ b, Ovba.decompress s = .ok b) ∨ (∃ e, Ovba.decompress s = .err e) := Ovba.C18.decompress_total s
+
+/-- **allocation bound**: whatever the input, `decompress_stream` returns at most 2049 bytes per input byte -/
+theorem vba_decompress_alloc_bound (s out : Ovba.Bytes) (h : Ovba.decompress s = .ok out) :
+    out.length ≤ 2049 * s.length := Ovba.C18.decompress_output_bound s out h
 
 theorem vba_decompress_terminates (s : Ovba.Bytes) : Ovba.decompress s ≠ .outOfFuel :=
   Ovba.C18.decompress_never_out_of_fuel s
